@@ -17,3 +17,9 @@ interface (`<nil>` for `%v`, `%!w(<nil>)` for `%w`, `%!s(<nil>)` for `%s`) -/
 def fmtErr (nilText : String) (e : Option String) : String := e.getD nilText
 
 end Sema.Go
+
+namespace Sema.Go
+/-- the capacity of `append(s, …)`'s result: unchanged when the new length `n` fits into the old capacity
+`c` (the backing array is re-used), otherwise what the run time chooses — the abstract `grow c n` -/
+def capAppend (grow : Int → Int → Int) (c n : Int) : Int := if n ≤ c then c else grow c n
+end Sema.Go
